@@ -26,7 +26,7 @@ func init() {
 		Phases: func(tier string, seed int64) []Phase {
 			return []Phase{{Name: "pipelines", Run: c10Run}}
 		},
-		MinObserved: []string{"pipelines_checked", "requests_after_unbind_sent", "eof_withheld_until_release_observed", "pipelines_after_a_write_fault", "pipelines_with_an_earlier_handler_panic", "unbinds_with_unusual_message_ids", "stops_with_an_unbind_pipeline_in_the_read_buffer", "stops_between_reading_an_unbind_and_acting_on_it", "unbinds_on_servers_that_share_a_mux", "second_unbinds_sent_behind_the_first", "pipelines_with_bind_handlers_parked_when_the_unbind_arrives", "unbinds_carrying_controls", "unbinds_on_a_server_whose_routes_were_registered_after_the_mux_was_attached", "pipelines_inside_a_starttls_upgraded_session"},
+		MinObserved: []string{"pipelines_checked", "requests_after_unbind_sent", "eof_withheld_until_release_observed", "pipelines_after_a_write_fault", "pipelines_with_an_earlier_handler_panic", "unbinds_with_unusual_message_ids", "stops_with_an_unbind_pipeline_in_the_read_buffer", "stops_between_reading_an_unbind_and_acting_on_it", "unbinds_on_servers_that_share_a_mux", "second_unbinds_sent_behind_the_first", "pipelines_with_bind_handlers_parked_when_the_unbind_arrives", "unbinds_carrying_controls", "pipelines_whose_earlier_handlers_stay_parked_long_after_the_unbind", "unbinds_on_a_server_whose_routes_were_registered_after_the_mux_was_attached", "pipelines_inside_a_starttls_upgraded_session"},
 	})
 }
 
@@ -685,7 +685,13 @@ func c10One(c *Ctx, pki *PKI, srvs map[string]*Srv, cs c10Case, r *Rand, idx int
 		for dl := time.Now().Add(patience); entered.Load() < int64(cs.K) && time.Now().Before(dl); {
 			time.Sleep(100 * time.Microsecond)
 		}
-		cl.C.SetReadDeadline(time.Now().Add(120 * time.Millisecond))
+		hold := 120 * time.Millisecond
+		if idx%5 == 2 {
+			// now and then the earlier handlers stay parked for the better part of a second after the Unbind was read
+			hold = time.Duration(600+r.Intn(300)) * time.Millisecond
+			c.Count("pipelines_whose_earlier_handlers_stay_parked_long_after_the_unbind", 1)
+		}
+		cl.C.SetReadDeadline(time.Now().Add(hold))
 		_, err := sber.ReadFrame(cl.br)
 		if err != nil && !isTimeout(err) {
 			c.Violate("connection closed after Unbind before earlier in-flight handlers finished", fmt.Sprintf("%v: EOF while %d handlers were parked", cs, cs.K), det)
